@@ -175,7 +175,7 @@ fn run_generic<A: Ar>(spec: &CaseSpec, tag: u64, every: u64, mut source: impl Fn
         // mapping is not the file
         let snaps = if nondurable || matches!(op, Op::Reopen { .. } | Op::Truncate(_)) { Vec::new() } else { snaps };
         // clear(): the caller promises not to use anything handed out before - no obligations inside it
-        let ob_in: Vec<Range> = if matches!(op, Op::Clear) { Vec::new() } else { ob.into_iter().filter(|r| Some(r.id) != releasing).collect() };
+        let ob_in: Vec<Range> = if matches!(op, Op::Clear | Op::Rewind(_)) { Vec::new() } else { ob.into_iter().filter(|r| Some(r.id) != releasing).collect() };
         for (step, bytes, la, om) in snaps {
             points.push(Point { op_index: i, step, bytes, obligations: ob_in.clone(), boundary: false, op_desc: format!("{:?}", op), after: la, mark: om });
         }
